@@ -678,9 +678,14 @@ MANIFEST = dict(
          "conversion accepts exactly the values in the type's range and passes them unchanged (OverflowError otherwise); "
          "set_source() modules dispatch to the same backend functions; results convert back to the C value; verify() "
          "accepts a non-partial struct exactly when set_source() does and both then hold the compiler's layout; for '...' "
-         "structs verify() performs the same backend call as the set_source route. The generic engine has NO model: "
-         "its agreement with set_source(), like function results, globals, constants and pointer/struct arguments, is "
-         "decided by the correspondence run only. Tie: Gen.v regenerated from the three sources; three builds per case "
+         "structs verify() performs the same backend call as the set_source route. Integer constants through all three "
+         "routes (C33_int_constant_routes_agree, C33_vgen_const_id, C33_vcpy_const_id): the generic engine's generated C "
+         "getter (`*out_value = (long long)(X); return (X) <= 0;`) + _load_constant's Python fix-up, the CPython engine's "
+         "_cffi_from_c_int_const, and set_source()'s C12.lib_constant all yield the constant's value on [-2^63, 2^64) — "
+         "the generic engine's first (and only) model. Its argument/result conversions have NO model: their "
+         "agreement with set_source(), like function results, globals, non-integer constants and pointer/struct arguments, "
+         "is decided by the correspondence run only. Tie: Gen.v regenerated from the sources (now incl. vengine_gen.py "
+         "_generate_gen_const / _load_constant int branches and the _cffi_from_c_int_const macro, fail closed); three builds per case "
          "compared on all observations (incl. pointer parameters given partial initialisers).",
     note="Partial: engines and compiler exercised by sampling; generic-engine conversions are not modelled (compared by "
          "running); bitfields, open arrays and anonymous structs not generated.",
